@@ -11,7 +11,7 @@ theorem inv4_quiet {P : Params} {s s' : State} (a : TxId) (h1 : Inv1 P s) (h : I
     (hother : ∀ i, i ≠ a → s'.phase i = s.phase i ∧ s'.status i = s.status i ∧
       s'.result i = s.result i ∧ s'.uts i = s.uts i)
     (hop : OwesPres s s' a) (hself : TxInv4 s' a) : Inv4 s' :=
-  inv4_of a h1 h hother hop (fun k => by rw [hlts]; exact Nat.le_refl _)
+  inv4_of a h1 h hother (fun _ => hop) (fun k => by rw [hlts]; exact Nat.le_refl _)
     (fun _ _ _ _ hall => Or.inl (allok_same hmv hall)) hself
 
 theorem nodup_mid {α : Type} {done todo : List α} {l : α} (h : (done ++ l :: todo).Nodup) :
@@ -57,7 +57,7 @@ theorem inv4_step {P : Params} {s s' : State} (h1 : Inv1 P s) (h2 : Inv2 s) (h :
     have hsh := (h2 i).shape; unfold Shape at hsh; rw [hp] at hsh
     obtain ⟨done, _, hdisj, _, hnew, hold⟩ := hsh
     have hnd : l ∉ done := hdisj l hl
-    refine inv4_of i h1 h (fun j hj => by simp [updF, hj]) ⟨?_, ?_⟩ (fun _ => Nat.le_refl _) ?_ ⟨?_, ?_⟩
+    refine inv4_of i h1 h (fun j hj => by simp [updF, hj]) (fun _ => ⟨?_, ?_⟩) (fun _ => Nat.le_refl _) ?_ ⟨?_, ?_⟩
     · intro ho; rw [hp] at ho
       left; simp only [updF_same, Owes] at ho ⊢
       rcases ho with ho | ho
@@ -95,7 +95,7 @@ theorem inv4_step {P : Params} {s s' : State} (h1 : Inv1 P s) (h2 : Inv2 s) (h :
     have hsh := (h2 i).shape; unfold Shape at hsh; rw [hp] at hsh
     obtain ⟨hnew, hold, hdisj⟩ := hsh
     have hlw : l ∉ writeLocs run.writes := hdisj l hl
-    refine inv4_of i h1 h (fun j hj => by simp [updF, hj]) ⟨?_, ?_⟩ (fun _ => Nat.le_refl _) ?_ ⟨?_, ?_⟩
+    refine inv4_of i h1 h (fun j hj => by simp [updF, hj]) (fun _ => ⟨?_, ?_⟩) (fun _ => Nat.le_refl _) ?_ ⟨?_, ?_⟩
     · intro ho; rw [hp] at ho; left; simpa [Owes] using ho
     · intro k ts st hc; rw [hp] at hc; cases hc
     · intro r reads t hri hall
@@ -134,7 +134,7 @@ theorem inv4_step {P : Params} {s s' : State} (h1 : Inv1 P s) (h2 : Inv2 s) (h :
     · intro hc; simp at hc
     · intro ts d t hc; simp at hc
   | markErrSome i e ow l todo en hp hl hm =>
-    refine inv4_of i h1 h (fun j hj => by simp [updF, hj]) ⟨?_, ?_⟩ (fun _ => Nat.le_refl _) ?_ ⟨?_, ?_⟩
+    refine inv4_of i h1 h (fun j hj => by simp [updF, hj]) (fun _ => ⟨?_, ?_⟩) (fun _ => Nat.le_refl _) ?_ ⟨?_, ?_⟩
     · intro _; left; simp [Owes]
     · intro k ts st hc; rw [hp] at hc; cases hc
     · intro r reads t hri hall
@@ -152,7 +152,7 @@ theorem inv4_step {P : Params} {s s' : State} (h1 : Inv1 P s) (h2 : Inv2 s) (h :
     · intro hc; simp [setPhase] at hc
     · intro ts d t hc; simp [setPhase] at hc
   | markValSome i l todo en hp hl hm =>
-    refine inv4_of i h1 h (fun j hj => by simp [updF, hj]) ⟨?_, ?_⟩ (fun _ => Nat.le_refl _) ?_ ⟨?_, ?_⟩
+    refine inv4_of i h1 h (fun j hj => by simp [updF, hj]) (fun _ => ⟨?_, ?_⟩) (fun _ => Nat.le_refl _) ?_ ⟨?_, ?_⟩
     · intro _; left; simp [Owes]
     · intro k ts st hc; rw [hp] at hc; cases hc
     · intro r reads t hri hall
@@ -175,7 +175,20 @@ theorem inv4_step {P : Params} {s s' : State} (h1 : Inv1 P s) (h2 : Inv2 s) (h :
     · intro k ts st hc; rw [hp] at hc; cases hc
     · intro hc; simp at hc
     · intro ts d t hc; simp at hc
-  | tailTs i k st hp =>
+  | tailSkip i k st hp hk =>
+    have htt := h1.tail_target i; rw [hp] at htt; simp only [TailTarget] at htt
+    have hps := h1.st_phase i; rw [hp] at hps; simp only [PhaseStatus] at hps
+    have hin : i < P.n := h1.active_lt i (by rcases hps.1 with h' | h' <;> rw [h'] <;> simp)
+    refine inv4_of i h1 h (fun j hj => by simp [updF, hj]) ?_ (fun _ => Nat.le_refl _)
+      (fun _ _ _ _ hall => Or.inl (allok_same rfl hall)) ⟨?_, ?_⟩
+    · rintro ⟨r, har, hrn⟩
+      exfalso
+      rcases htt with h' | h' <;> omega
+    · intro _ hst
+      simp only [updF_same] at hst
+      rcases hps.2 with h' | h' <;> rw [h'] at hst <;> cases hst
+    · intro ts' d t hc; simp at hc
+  | tailTs i k st hp hk =>
     refine inv4_quiet i h1 h rfl rfl (fun j hj => by simp [updF, hj]) ⟨?_, ?_⟩ ⟨?_, ?_⟩
     · intro _; right; exact ⟨k, st, by simp⟩
     · intro k' ts st' hc; rw [hp] at hc; cases hc
@@ -184,7 +197,7 @@ theorem inv4_step {P : Params} {s s' : State} (h1 : Inv1 P s) (h2 : Inv2 s) (h :
   | tailLts i k ts st hp =>
     have htt := h1.tail_target i; rw [hp] at htt; simp only [TailTarget] at htt
     have hps := h1.st_phase i; rw [hp] at hps; simp only [PhaseStatus] at hps
-    refine inv4_of i h1 h (fun j hj => by simp [updF, hj]) ⟨?_, ?_⟩ ?_
+    refine inv4_of i h1 h (fun j hj => by simp [updF, hj]) (fun _ => ⟨?_, ?_⟩) ?_
       (fun _ _ _ _ hall => Or.inl (allok_same rfl hall)) ⟨?_, ?_⟩
     · intro ho; rw [hp] at ho; exact absurd ho (by simp [Owes])
     · intro k' ts' st' hc
@@ -253,7 +266,7 @@ theorem inv4_step {P : Params} {s s' : State} (h1 : Inv1 P s) (h2 : Inv2 s) (h :
     have hsh := (h2 i).shape; unfold Shape at hsh; rw [hp] at hsh
     obtain ⟨r', hr', _, _, hrd⟩ := hsh
     have hck := h1.clk_phase i; rw [hp] at hck; simp only [PhaseClock] at hck
-    refine inv4_of i h1 h (fun j hj => by simp [updF, hj]) ⟨?_, ?_⟩ (fun _ => Nat.le_refl _)
+    refine inv4_of i h1 h (fun j hj => by simp [updF, hj]) (fun _ => ⟨?_, ?_⟩) (fun _ => Nat.le_refl _)
       (fun _ _ _ _ hall => Or.inl (allok_same rfl hall)) ⟨?_, ?_⟩
     · intro ho; rw [hp] at ho; exact absurd ho (by simp [Owes])
     · intro k ts' st hc; rw [hp] at hc; cases hc
